@@ -1178,6 +1178,12 @@ func (c *Ctx) HoverUnderContains(ob *core.Obligation) {
 					rk := core.Canon(recv)
 					return want == "" || rk == want || sameRangeSource(recv, rangeStored)
 				})
+				if !good {
+					// a constructor that only wraps the node it is given: the test is owed by its callers
+					if node := constructorNodeParam(al, fn); node != nil {
+						good = c.callersTestContains(fn, node)
+					}
+				}
 				if good {
 					ob.Pass(key, c.P.Pos(al.Pos()), "created only after Contains(position) succeeded on the node's range")
 				} else {
@@ -1236,6 +1242,96 @@ func (c *Ctx) HoverUnderContains(ob *core.Obligation) {
 	} else {
 		ob.Fail(key, c.P.Pos(gd.Pos()), "go-to-definition does not answer with the name range of the declaration the checker resolved for the hovered variable")
 	}
+}
+
+// constructorNodeParam: the hover built in fn reports a node that is a parameter of fn (its
+// Node field is stored from that parameter).
+func constructorNodeParam(al *ssa.Alloc, fn *ssa.Function) *ssa.Parameter {
+	v := fieldStoredInto(al, "Node")
+	if v == nil {
+		return nil
+	}
+	p, _ := resolveLocal(v).(*ssa.Parameter)
+	if p == nil || p.Parent() != fn {
+		return nil
+	}
+	return p
+}
+
+// callersTestContains: every call of fn passes, for the node parameter, a node whose range was
+// found to contain the position on every path to the call.
+func (c *Ctx) callersTestContains(fn *ssa.Function, node *ssa.Parameter) bool {
+	idx := paramIndex(fn, node)
+	n := 0
+	base := func(v ssa.Value) string {
+		v = core.Strip(v)
+		// the value before a type assertion / interface conversion
+		for i := 0; i < 6; i++ {
+			switch x := v.(type) {
+			case *ssa.Extract:
+				if ta, ok := x.Tuple.(*ssa.TypeAssert); ok {
+					v = core.Strip(ta.X)
+					continue
+				}
+			case *ssa.TypeAssert:
+				v = core.Strip(x.X)
+				continue
+			case *ssa.MakeInterface:
+				v = core.Strip(x.X)
+				continue
+			}
+			break
+		}
+		return core.Canon(v)
+	}
+	for _, g := range c.P.ModuleFunctions() {
+		var pc *core.PathConds
+		for _, ci := range core.Calls(g) {
+			if ci.Common().StaticCallee() != fn || idx < 0 || idx >= len(ci.Common().Args) {
+				continue
+			}
+			n++
+			if pc == nil {
+				pc = core.NewPathConds(g)
+			}
+			want := base(ci.Common().Args[idx])
+			ok := pc.Requires(ci.Block(), func(l core.Lit) bool {
+				call, isCall := l.Cond.(*ssa.Call)
+				if !isCall || !l.Val {
+					return false
+				}
+				o := core.CalleeObj(&call.Call)
+				if o == nil || o.Name() != "Contains" {
+					return false
+				}
+				recv := core.CallArgs(&call.Call)[0]
+				// whose range is it?
+				switch r := core.Strip(recv).(type) {
+				case *ssa.Call:
+					if r.Call.IsInvoke() && r.Call.Method.Name() == "GetRange" {
+						return base(r.Call.Value) == want
+					}
+					if args := core.CallArgs(&r.Call); len(args) > 0 {
+						if o2 := core.CalleeObj(&r.Call); o2 != nil && o2.Name() == "GetRange" {
+							return base(args[0]) == want
+						}
+					}
+				case *ssa.UnOp:
+					if fa, ok := r.X.(*ssa.FieldAddr); ok {
+						return base(fa.X) == want
+					}
+				case *ssa.Field:
+					return base(r.X) == want
+				}
+				return false
+			})
+			if !ok {
+				return false
+			}
+			c.Touch(g)
+		}
+	}
+	return n > 0
 }
 
 // sameRangeSource: both values are the Range of the same node.
